@@ -51,6 +51,7 @@ def strategy(tier: str) -> Any:
         'writers': st.integers(1, 2),
         'init': st.integers(0, 3),
         'done_garbage': st.booleans(),
+        'pre': st.lists(st.integers(0, 11), max_size=2),
         'schedule': st.lists(act, min_size=2, max_size=30),
     })
 
@@ -73,17 +74,12 @@ def run_case(case: dict[str, Any]) -> CaseOut:
             m = make_message('i%d' % i)
             setup.command(b'APPEND INBOX {%d+}' % len(m), m)
         setup.command(b'LOGOUT')
-        idlers = []
+        pending = []
         for k in range(case['idlers']):
             c = Client(sim, prefix=b'i%d-' % k)
             c.login('alice')
             c.select(b'INBOX', learn=True)
-            tag = c.next_tag()
-            raw = c.raw_send(tag + b' IDLE\r\n')
-            assert b'+ Idling.\r\n' in raw, raw
-            for r in c.parse(raw):
-                c.shadow.apply(r)
-            idlers.append((c, tag))
+            pending.append(c)
         writers = []
         for k in range(case['writers']):
             w = Client(sim, prefix=b'w%d-' % k)
@@ -91,6 +87,29 @@ def run_case(case: dict[str, Any]) -> CaseOut:
             w.select(b'INBOX', learn=False)
             writers.append(w)
         vid = 0
+        # changes made after the idlers' last command and before their IDLE:
+        # they are still unreported when IDLE starts
+        for x in case.get('pre') or []:
+            w = writers[x % len(writers)]
+            kind = (x // 2) % 3
+            if kind == 0:
+                vid += 1
+                m = make_message('p%d' % vid)
+                w.command(b'APPEND INBOX {%d+}' % len(m), m)
+            elif kind == 1:
+                w.command(b'STORE 1:* +FLAGS.SILENT (\\Answered)')
+            else:
+                w.command(b'STORE 1 +FLAGS.SILENT (\\Deleted)')
+                w.command(b'EXPUNGE')
+            out.label('change-pending-at-idle-start')
+        idlers = []
+        for c in pending:
+            tag = c.next_tag()
+            raw = c.raw_send(tag + b' IDLE\r\n')
+            assert b'+ Idling.\r\n' in raw, raw
+            for r in c.parse(raw):
+                c.shadow.apply(r)
+            idlers.append((c, tag))
         since_change = 99
         changes = 0
         for act, who, k, x in case['schedule']:
